@@ -13,10 +13,24 @@ use std::collections::{BTreeSet, HashMap};
 use std::net::SocketAddr;
 
 use regex::bytes::Regex;
-use sozu_command_lib::proto::command::{PathRule, RulePosition};
+use std::collections::BTreeMap;
+use sozu_command_lib::proto::command::{Header, HstsConfig, PathRule, RequestHttpFrontend, RulePosition};
 use sozu_command_lib::response::HttpFrontend;
 use sozu_lib::protocol::kawa_h1::parser::Method;
-use sozu_lib::router::{RouteResult, Router, RouterError};
+use std::cell::RefCell;
+use std::rc::Rc;
+
+use mio::Token;
+use slab::Slab;
+use sozu_command_lib::config::ListenerBuilder;
+use sozu_command_lib::proto::command::UpdateHttpsListenerConfig;
+use sozu_lib::backends::BackendMap;
+use sozu_lib::http::HttpProxy;
+use sozu_lib::https::HttpsListener;
+use sozu_lib::pool::Pool;
+use sozu_lib::router::{HstsOrigin, RouteResult, Router, RouterError};
+use sozu_lib::server::SessionManager;
+use sozu_lib::{FrontendFromRequestError, L7ListenerHandler, ListenerError, ListenerHandler, ProxyError};
 use verif_harness::*;
 
 struct RouterArea;
@@ -55,6 +69,14 @@ struct Front {
     rpath: Option<String>,
     rport: Option<u32>,
     auth: Option<bool>,
+    /// HeaderPosition of each header entry
+    headers: Vec<u32>,
+    /// (enabled == Some(true), max_age.is_some())
+    hsts: Option<(bool, bool)>,
+    /// HstsOrigin::InheritedFromListenerDefault
+    inherit: bool,
+    /// 0 = the listener's address, 1 = an address without listener
+    addr: u8,
 }
 
 fn hx(s: &str) -> String {
@@ -205,7 +227,7 @@ impl InPlay {
 
 fn add_line(f: &Front, ip: &InPlay) -> String {
     format!(
-        "add {} {} {} {} {} {} {} {} {} {} {} {} {} {} {} {}",
+        "add {} {} {} {} {} {} {} {} {} {} {} {} {} {} {} {} {} {} {} {}",
         f.pos,
         hx(&f.host),
         f.kind,
@@ -224,12 +246,19 @@ fn add_line(f: &Front, ip: &InPlay) -> String {
         },
         path_ok(f.kind, &f.path) as u8,
         host_ok(&f.host) as u8,
-        ip.table(&f.host, None)
+        ip.table(&f.host, None),
+        if f.headers.is_empty() { "-".to_string() } else { f.headers.iter().map(|h| h.to_string()).collect::<String>() },
+        match f.hsts {
+            None => "~".to_string(),
+            Some((a, b)) => format!("{}{}", a as u8, b as u8),
+        },
+        f.inherit as u8,
+        f.addr
     )
 }
 fn rem_line(f: &Front, ip: &InPlay) -> String {
     format!(
-        "rem {} {} {} {} {} {} {} {}",
+        "rem {} {} {} {} {} {} {} {} {}",
         f.pos,
         hx(&f.host),
         f.kind,
@@ -237,15 +266,41 @@ fn rem_line(f: &Front, ip: &InPlay) -> String {
         ohx(&f.method),
         path_ok(f.kind, &f.path) as u8,
         host_ok(&f.host) as u8,
-        ip.table(&f.host, None)
+        ip.table(&f.host, None),
+        f.addr
     )
 }
 fn probe_line(h: &str, p: &str, m: &str, ip: &InPlay) -> String {
-    format!("probe {} {} {} {}", hx(h), hx(p), hx(m), ip.table(h, Some(p)))
+    // in the listener modes `h` is a Host header value: the regexes see the hostname part
+    let host = authority_host(h).unwrap_or_else(|| h.to_string());
+    format!("probe {} {} {} {}", hx(h), hx(p), hx(m), ip.table(&host, Some(p)))
+}
+
+/// own transcription of what `frontend_from_request` accepts as Host /
+/// :authority value: hostname characters, optionally `:port` with 1..=65535
+fn authority_host(a: &str) -> Option<String> {
+    let b = a.as_bytes();
+    let n = b.iter().take_while(|c| c.is_ascii_alphanumeric() || **c == b'-' || **c == b'.').count();
+    if n == 0 {
+        return None;
+    }
+    let rest = &a[n..];
+    if rest.is_empty() {
+        return Some(a[..n].to_string());
+    }
+    let digits = rest.strip_prefix(':')?;
+    if digits.is_empty() || !digits.bytes().all(|c| c.is_ascii_digit()) {
+        return None;
+    }
+    match digits.parse::<u32>() {
+        Ok(p) if (1..=65535).contains(&p) => Some(a[..n].to_string()),
+        _ => None,
+    }
 }
 
 enum Op {
-    New,
+    New(u8),
+    Hsts(bool),
     Add(Front),
     Rem(Front),
     Probe(String, String, String),
@@ -255,8 +310,10 @@ enum Op {
 fn parse_op(line: &str) -> Op {
     let w: Vec<&str> = line.split_whitespace().collect();
     match w.first().copied() {
-        Some("new") if w.len() == 1 => Op::New,
-        Some("add") if w.len() == 17 => Op::Add(Front {
+        Some("new") if w.len() == 1 => Op::New(0),
+        Some("new") if w.len() == 2 && w[1] == "http" => Op::New(1),
+        Some("new") if w.len() == 2 && w[1] == "https" => Op::New(2),
+        Some("add") if w.len() == 21 => Op::Add(Front {
             pos: w[1].parse().unwrap_or(9),
             host: unhx(w[2]),
             kind: w[3].parse().unwrap_or(9),
@@ -274,8 +331,15 @@ fn parse_op(line: &str) -> Op {
                 "0" => Some(false),
                 _ => None,
             },
+            headers: if w[17] == "-" { vec![] } else { w[17].chars().filter_map(|c| c.to_digit(10)).collect() },
+            hsts: match w[18] {
+                "~" => None,
+                x => Some((x.starts_with('1'), x.ends_with('1'))),
+            },
+            inherit: w[19] == "1",
+            addr: w[20].parse().unwrap_or(9),
         }),
-        Some("rem") if w.len() == 9 => Op::Rem(Front {
+        Some("rem") if w.len() == 10 => Op::Rem(Front {
             pos: w[1].parse().unwrap_or(9),
             host: unhx(w[2]),
             kind: w[3].parse().unwrap_or(9),
@@ -289,8 +353,13 @@ fn parse_op(line: &str) -> Op {
             rpath: None,
             rport: None,
             auth: None,
+            headers: vec![],
+            hsts: None,
+            inherit: false,
+            addr: w[9].parse().unwrap_or(9),
         }),
         Some("probe") if w.len() == 5 => Op::Probe(unhx(w[1]), unhx(w[2]), unhx(w[3])),
+        Some("hsts") if w.len() == 2 => Op::Hsts(w[1] == "1"),
         _ => Op::Bad,
     }
 }
@@ -306,7 +375,7 @@ fn http_front(f: &Front) -> Option<HttpFrontend> {
     };
     Some(HttpFrontend {
         cluster_id: f.cluster.clone(),
-        address: "127.0.0.1:8080".parse::<SocketAddr>().unwrap(),
+        address: LISTEN_ADDR.parse::<SocketAddr>().unwrap(),
         hostname: f.host.clone(),
         path: PathRule { kind: f.kind as i32, value: f.path.clone() },
         method: f.method.clone(),
@@ -319,9 +388,214 @@ fn http_front(f: &Front) -> Option<HttpFrontend> {
         rewrite_path: f.rpath.clone(),
         rewrite_port: f.rport,
         required_auth: f.auth,
-        headers: vec![],
-        hsts: None,
+        headers: mk_headers(f),
+        hsts: mk_hsts(f),
     })
+}
+
+fn mk_headers(f: &Front) -> Vec<Header> {
+    f.headers
+        .iter()
+        .enumerate()
+        .map(|(i, p)| Header { position: *p as i32, key: format!("x-h{i}"), val: format!("v{i}") })
+        .collect()
+}
+fn mk_hsts(f: &Front) -> Option<HstsConfig> {
+    f.hsts.map(|(en, age)| HstsConfig {
+        enabled: Some(en),
+        max_age: if age { Some(31_536_000) } else { None },
+        include_subdomains: None,
+        preload: None,
+        force_replace_backend: None,
+    })
+}
+
+fn request_front(f: &Front) -> RequestHttpFrontend {
+    RequestHttpFrontend {
+        cluster_id: f.cluster.clone(),
+        address: if f.addr == 0 { LISTEN_ADDR } else { "127.0.0.1:9999" }.parse::<SocketAddr>().unwrap().into(),
+        hostname: f.host.clone(),
+        path: PathRule { kind: f.kind as i32, value: f.path.clone() },
+        method: f.method.clone(),
+        position: f.pos as i32,
+        tags: BTreeMap::new(),
+        redirect: f.redirect.map(|x| x as i32),
+        redirect_scheme: f.scheme.map(|x| x as i32),
+        redirect_template: f.tmpl.clone(),
+        rewrite_host: f.rhost.clone(),
+        rewrite_path: f.rpath.clone(),
+        rewrite_port: f.rport,
+        required_auth: f.auth,
+        headers: mk_headers(f),
+        hsts: mk_hsts(f),
+    }
+}
+
+const LISTEN_ADDR: &str = "127.0.0.1:8080";
+
+
+/// what the operations are driven through: the bare `Router`, an `HttpProxy`
+/// with one HTTP listener (`add_http_frontend` / `remove_http_frontend` /
+/// `frontend_from_request`), or an `HttpsListener`
+enum Backend {
+    Router(Router),
+    Http(Box<HttpProxy>, Token),
+    Https(Box<HttpsListener>),
+}
+
+fn router_err(e: &RouterError) -> &'static str {
+    match e {
+        RouterError::InvalidPathRule(_) => "err-path",
+        RouterError::InvalidDomain { .. } => "err-domain",
+        RouterError::AddRoute(_) => "err-add",
+        RouterError::RemoveRoute(_) => "err-remove",
+        _ => "err-other",
+    }
+}
+fn listener_err(e: &ListenerError) -> &'static str {
+    match e {
+        ListenerError::AddFrontend(r) | ListenerError::RemoveFrontend(r) => router_err(r),
+        _ => "err-other",
+    }
+}
+fn proxy_err(e: &ProxyError) -> &'static str {
+    match e {
+        ProxyError::HstsOnPlainHttp(_) => "err-hsts",
+        ProxyError::WrongInputFrontend { .. } => "err-input",
+        ProxyError::NoListenerFound(_) => "err-nolistener",
+        ProxyError::AddFrontend(l) | ProxyError::RemoveFrontend(l) => listener_err(l),
+        _ => "err-other",
+    }
+}
+
+impl Backend {
+    fn new(mode: u8) -> Backend {
+        let addr: SocketAddr = LISTEN_ADDR.parse().unwrap();
+        match mode {
+            1 => {
+                let poll = mio::Poll::new().expect("poll");
+                let registry = poll.registry().try_clone().expect("registry");
+                let sessions = SessionManager::new(Slab::with_capacity(8), 8, 0, 0);
+                let pool = Rc::new(RefCell::new(Pool::with_capacity(1, 2, 16_384)));
+                let backends = Rc::new(RefCell::new(BackendMap::new()));
+                let mut proxy = HttpProxy::new(registry, sessions, pool, backends);
+                let cfg = ListenerBuilder::new_http(addr.into()).to_http(None).expect("http listener config");
+                let token = proxy.add_listener(cfg, Token(1)).expect("add_listener");
+                Backend::Http(Box::new(proxy), token)
+            }
+            2 => {
+                let cfg = ListenerBuilder::new_https(addr.into()).to_tls(None).expect("https listener config");
+                Backend::Https(Box::new(HttpsListener::try_new(cfg, Token(1)).expect("https listener")))
+            }
+            _ => Backend::Router(Router::new()),
+        }
+    }
+    fn mode(&self) -> u8 {
+        match self {
+            Backend::Router(_) => 0,
+            Backend::Http(..) => 1,
+            Backend::Https(_) => 2,
+        }
+    }
+    /// `None` = the op cannot be expressed on this backend (bad-op)
+    fn add(&mut self, f: &Front) -> Option<&'static str> {
+        match self {
+            Backend::Router(r) => {
+                let hf = http_front(f)?;
+                let origin = if f.inherit { HstsOrigin::InheritedFromListenerDefault } else { HstsOrigin::Explicit };
+                Some(match r.add_http_front_with_hsts_origin(&hf, origin) {
+                    Ok(()) => "ok",
+                    Err(e) => router_err(&e),
+                })
+            }
+            Backend::Http(p, _) => Some(match p.add_http_frontend(request_front(f)) {
+                Ok(()) => "ok",
+                Err(e) => proxy_err(&e),
+            }),
+            Backend::Https(l) => {
+                let hf = http_front(f)?;
+                let origin = if f.inherit { HstsOrigin::InheritedFromListenerDefault } else { HstsOrigin::Explicit };
+                Some(match l.add_https_front_with_hsts_origin(hf, origin) {
+                    Ok(()) => "ok",
+                    Err(e) => listener_err(&e),
+                })
+            }
+        }
+    }
+    fn rem(&mut self, f: &Front) -> Option<String> {
+        match self {
+            Backend::Router(r) => {
+                let hf = http_front(f)?;
+                let out = match r.remove_http_front(&hf) {
+                    Ok(()) => "ok",
+                    Err(e) => router_err(&e),
+                };
+                Some(format!("{out} hh={}", r.has_hostname(&f.host) as u8))
+            }
+            Backend::Http(p, t) => {
+                let out = match p.remove_http_frontend(request_front(f)) {
+                    Ok(()) => "ok",
+                    Err(e) => proxy_err(&e),
+                };
+                let tags = p.get_listener(t).map(|l| l.borrow().get_tags(&f.host).is_some()).unwrap_or(false);
+                Some(format!("{out} t={}", tags as u8))
+            }
+            Backend::Https(l) => {
+                let hf = http_front(f)?;
+                Some(
+                    match l.remove_https_front(hf) {
+                        Ok(()) => "ok",
+                        Err(e) => listener_err(&e),
+                    }
+                    .to_string(),
+                )
+            }
+        }
+    }
+    fn lookup(&self, h: &str, p: &str, m: &str) -> String {
+        let method = Method::new(m.as_bytes());
+        let res = match self {
+            Backend::Router(r) => {
+                return match r.lookup(h, p, &method) {
+                    Ok(r) => show_result(&r),
+                    Err(RouterError::RouteNotFound { .. }) => "none".into(),
+                    Err(_) => "error".into(),
+                }
+            }
+            Backend::Http(px, t) => px.get_listener(t).expect("listener").borrow().frontend_from_request(h, p, &method),
+            Backend::Https(l) => l.frontend_from_request(h, p, &method),
+        };
+        match res {
+            Ok(r) => show_result(&r),
+            Err(FrontendFromRequestError::NoClusterFound(RouterError::RouteNotFound { .. })) => "none".into(),
+            Err(FrontendFromRequestError::NoClusterFound(_)) => "error".into(),
+            Err(_) => "err-host".into(),
+        }
+    }
+    fn hsts(&mut self, edit: bool) -> Option<&'static str> {
+        let cfg = HstsConfig {
+            enabled: Some(edit),
+            max_age: Some(600),
+            include_subdomains: None,
+            preload: None,
+            force_replace_backend: None,
+        };
+        match self {
+            Backend::Router(r) => {
+                r.refresh_inheriting_hsts(Some(&cfg));
+                Some("ok")
+            }
+            Backend::Http(..) => None,
+            Backend::Https(l) => {
+                let addr: SocketAddr = LISTEN_ADDR.parse().unwrap();
+                let patch = UpdateHttpsListenerConfig { address: addr.into(), hsts: Some(cfg), ..Default::default() };
+                Some(match l.update_config(&patch) {
+                    Ok(()) => "ok",
+                    Err(_) => "err-other",
+                })
+            }
+        }
+    }
 }
 
 fn os(s: &Option<String>) -> String {
@@ -333,7 +607,7 @@ fn os(s: &Option<String>) -> String {
 
 fn show_result(r: &RouteResult) -> String {
     format!(
-        "c={} r={} s={} t={} h={} p={} o={} a={}",
+        "c={} r={} s={} t={} h={} p={} o={} a={} q={} e={}",
         os(&r.cluster_id),
         r.redirect as i32,
         r.redirect_scheme as i32,
@@ -344,62 +618,138 @@ fn show_result(r: &RouteResult) -> String {
             None => "~".to_string(),
             Some(p) => p.to_string(),
         },
-        r.required_auth as u8
+        r.required_auth as u8,
+        r.headers_request.len(),
+        r.headers_response.len()
     )
 }
 
-fn impl_lookup(router: &Router, h: &str, p: &str, m: &str) -> String {
-    match router.lookup(h, p, &Method::new(m.as_bytes())) {
-        Ok(r) => show_result(&r),
-        Err(RouterError::RouteNotFound { .. }) => "none".into(),
-        Err(_) => "error".into(),
-    }
+fn impl_lookup(b: &Backend, h: &str, p: &str, m: &str) -> String {
+    b.lookup(h, p, m)
 }
 
 // ------------------------------------------------- own spec (Rust side) --
 
 /// what `RouteResult` a configured frontend stands for (own transcription of
 /// the documented coercions: clusterless forward and UNAUTHORIZED give a 401)
-fn expected_result(f: &Front) -> String {
-    let has_policy = f.redirect.is_some()
-        || f.scheme.is_some()
-        || f.tmpl.is_some()
-        || f.rhost.is_some()
-        || f.rpath.is_some()
-        || f.rport.is_some()
-        || f.auth.unwrap_or(false);
-    let ne = |s: &Option<String>| s.clone().filter(|x| !x.is_empty());
-    if !has_policy {
-        return match &f.cluster {
-            Some(c) => format!("c={} r=0 s=0 t=~ h=~ p=~ o=~ a=0", hx(c)),
-            None => "c=~ r=2 s=0 t=~ h=~ p=~ o=~ a=0".to_string(),
+/// what `RouteResult` a configured frontend stands for (own transcription of
+/// the documented coercions: clusterless forward and UNAUTHORIZED give a 401;
+/// header edits by position; the HSTS edit; the listener-default refresh)
+#[derive(Clone, Debug, PartialEq)]
+struct Exp {
+    legacy: bool,
+    cluster: Option<String>,
+    redirect: u32,
+    scheme: u32,
+    tmpl: Option<String>,
+    rhost: Option<String>,
+    rpath: Option<String>,
+    rport: Option<u32>,
+    auth: bool,
+    nreq: usize,
+    nresp: usize,
+    sts: bool,
+    inherits: bool,
+}
+
+impl Exp {
+    fn from_front(f: &Front) -> Exp {
+        let has_policy = f.redirect.is_some()
+            || f.scheme.is_some()
+            || f.tmpl.is_some()
+            || f.rhost.is_some()
+            || f.rpath.is_some()
+            || f.rport.is_some()
+            || f.auth.unwrap_or(false)
+            || !f.headers.is_empty()
+            || f.hsts.is_some();
+        let ne = |s: &Option<String>| s.clone().filter(|x| !x.is_empty());
+        let mut e = Exp {
+            legacy: !has_policy,
+            cluster: f.cluster.clone(),
+            redirect: 0,
+            scheme: 0,
+            tmpl: None,
+            rhost: None,
+            rpath: None,
+            rport: None,
+            auth: false,
+            nreq: 0,
+            nresp: 0,
+            sts: false,
+            inherits: false,
         };
+        if !has_policy {
+            if f.cluster.is_none() {
+                e.redirect = 2;
+            }
+            return e;
+        }
+        e.redirect = f.redirect.filter(|r| *r <= 4).unwrap_or(0);
+        e.scheme = f.scheme.filter(|r| *r <= 2).unwrap_or(0);
+        e.auth = f.auth.unwrap_or(false);
+        e.sts = matches!(f.hsts, Some((true, true)));
+        e.inherits = f.inherit && f.hsts.is_some();
+        if e.redirect == 2 || (f.cluster.is_none() && e.redirect == 0) {
+            e.redirect = 2;
+            return e;
+        }
+        e.tmpl = ne(&f.tmpl);
+        e.rhost = ne(&f.rhost);
+        e.rpath = ne(&f.rpath);
+        e.rport = f.rport.filter(|p| *p <= 65535);
+        e.nreq = f.headers.iter().filter(|p| **p == 1 || **p == 3).count();
+        e.nresp = f.headers.iter().filter(|p| **p == 2 || **p == 3).count();
+        e
     }
-    let redirect = f.redirect.filter(|r| *r <= 4).unwrap_or(0);
-    let scheme = f.scheme.filter(|r| *r <= 2).unwrap_or(0);
-    let auth = f.auth.unwrap_or(false) as u8;
-    if redirect == 2 || (f.cluster.is_none() && redirect == 0) {
-        return format!("c={} r=2 s={} t=~ h=~ p=~ o=~ a={}", os(&f.cluster), scheme, auth);
+    /// `refresh_inheriting_hsts`: inheriting frontends take the new listener
+    /// default; policy-free routes are promoted when the default renders
+    fn refresh(&mut self, edit: bool) {
+        if self.legacy {
+            if edit {
+                self.legacy = false;
+                self.sts = true;
+                self.inherits = true;
+            }
+        } else if self.inherits {
+            self.sts = edit;
+        }
     }
-    format!(
-        "c={} r={} s={} t={} h={} p={} o={} a={}",
-        os(&f.cluster),
-        redirect,
-        scheme,
-        os(&ne(&f.tmpl)),
-        os(&ne(&f.rhost)),
-        os(&ne(&f.rpath)),
-        match f.rport.filter(|p| *p <= 65535) {
-            None => "~".to_string(),
-            Some(p) => p.to_string(),
-        },
-        auth
-    )
+    fn show(&self) -> String {
+        let nresp = self.nresp + self.sts as usize;
+        if self.redirect == 2 {
+            return format!(
+                "c={} r=2 s={} t=~ h=~ p=~ o=~ a={} q=0 e={}",
+                os(&self.cluster), self.scheme, self.auth as u8, nresp
+            );
+        }
+        format!(
+            "c={} r={} s={} t={} h={} p={} o={} a={} q={} e={}",
+            os(&self.cluster),
+            self.redirect,
+            self.scheme,
+            os(&self.tmpl),
+            os(&self.rhost),
+            os(&self.rpath),
+            match self.rport {
+                None => "~".to_string(),
+                Some(p) => p.to_string(),
+            },
+            self.auth as u8,
+            self.nreq,
+            nresp
+        )
+    }
+}
+
+fn expected_result(f: &Front) -> String {
+    Exp::from_front(f).show()
 }
 
 #[derive(Clone, Debug)]
 struct Fe {
     f: Front,
+    exp: Exp,
     res: String,
     id: usize, // index of the add op
 }
@@ -737,7 +1087,7 @@ fn is_admissible(s: &[Fe], x: &str, h: &str, p: &str, m: &str) -> bool {
 #[allow(clippy::too_many_arguments)]
 fn irrelevant_change(
     fails: &mut BTreeSet<(String, String)>, what: &str, f: &Front, valid: bool, g: &[(&str, &str, &str)], before: &[String],
-    router: &Router, s_before: &[Fe], s_after: &[Fe], hist: &[Fe], removed: &[Front],
+    router: &Backend, s_before: &[Fe], s_after: &[Fe], hist: &[Fe], removed: &[Front],
 ) {
     let groups = |s: &[Fe]| -> BTreeSet<String> { s.iter().filter(|fe| fe.f.pos == 2).map(|fe| fe.f.host.clone()).collect() };
     for (k, (h, p, m)) in g.iter().enumerate() {
@@ -831,6 +1181,10 @@ fn gen_front(rng: &mut Rng, hosts: &[&str], id: usize, allow_bad: bool) -> Front
         rpath: None,
         rport: None,
         auth: None,
+        headers: vec![],
+        hsts: None,
+        inherit: false,
+        addr: 0,
     };
     match rng.below(12) {
         0 => f.cluster = None, // Route::Deny
@@ -851,9 +1205,41 @@ fn gen_front(rng: &mut Rng, hosts: &[&str], id: usize, allow_bad: bool) -> Front
                 f.cluster = None;
             }
         }
+        5 => {
+            // header edits by position (0 and 9 are dropped), sometimes on a 401 / clusterless frontend
+            let n = rng.range(1, 3);
+            f.headers = (0..n).map(|_| *rng.pick(&[1u32, 2, 3, 3, 0, 9])).collect();
+            if rng.chance(1, 5) {
+                f.redirect = Some(2);
+            }
+        }
+        6 => {
+            // per-frontend or listener-inherited HSTS: enabled/disabled, with/without max_age
+            f.hsts = Some((rng.chance(3, 4), rng.chance(4, 5)));
+            f.inherit = rng.chance(1, 2);
+            if rng.chance(1, 4) {
+                f.cluster = None;
+            }
+            if rng.chance(1, 4) {
+                f.headers = vec![2];
+            }
+        }
         _ => {}
     }
     f
+}
+
+/// Host / :authority values for the listener modes: the hostname, the
+/// hostname with a port, and values `frontend_from_request` must refuse
+fn authority_of(rng: &mut Rng, h: &str) -> String {
+    match rng.below(12) {
+        0..=4 => h.to_string(),
+        5..=7 => format!("{h}:{}", rng.pick(&["80", "8080", "65535", "00443"])),
+        8 => format!("{h}:{}", rng.pick(&["0", "65536", "99999999999", "", "8x", "80:80"])),
+        9 => format!("{h}{}", rng.pick(&["_x", "/", " ", "%41", "@b"])),
+        10 => format!(":{}", 80),
+        _ => h.to_uppercase(),
+    }
 }
 
 fn push_probes(ops: &mut Vec<String>, rng: &mut Rng, ip: &InPlay, n: usize) {
@@ -914,12 +1300,41 @@ impl RouterArea {
         for f in &fronts {
             ip.note(f);
         }
-        let mut ops = vec!["new".to_string()];
+        // 0 = bare Router, 1 = HttpProxy + HTTP listener, 2 = HttpsListener
+        let mode = match rng.below(10) {
+            0..=5 => 0,
+            6..=7 => 1,
+            _ => 2,
+        };
+        let mut ops = vec![["new", "new http", "new https"][mode].to_string()];
         for (is_add, k) in plan {
-            let f = &fronts[k];
+            let mut f = fronts[k].clone();
+            if mode == 1 {
+                // glue refusals: a frontend for an address without listener, an invalid position
+                if rng.chance(1, 14) {
+                    f.addr = 1;
+                }
+                if rng.chance(1, 25) {
+                    f.pos = 7;
+                }
+            }
+            let f = &f;
             ops.push(if is_add { add_line(f, &ip) } else { rem_line(f, &ip) });
+            let from = ops.len();
             push_aimed(&mut ops, rng, &ip, f, 4);
             push_probes(&mut ops, rng, &ip, 3);
+            if mode != 0 {
+                // the probes carry Host header values
+                for line in ops[from..].iter_mut() {
+                    if let Op::Probe(h, p, m) = parse_op(line) {
+                        *line = probe_line(&authority_of(rng, &h), &p, &m, &ip);
+                    }
+                }
+            }
+            if mode != 1 && rng.chance(1, 8) {
+                ops.push(format!("hsts {}", rng.below(2)));
+                push_aimed(&mut ops, rng, &ip, f, 3);
+            }
         }
         ops
     }
@@ -1064,6 +1479,10 @@ fn front_simple(pos: u8, host: &str, kind: u32, path: &str, method: Option<&str>
         rpath: None,
         rport: None,
         auth: None,
+        headers: vec![],
+        hsts: None,
+        inherit: false,
+        addr: 0,
     }
 }
 
@@ -1212,7 +1631,7 @@ impl RouterArea {
     fn run_core(&self, ops: &[String]) -> ImplRun {
         REGEX_SHAPES.with(|c| c.set(regex_shapes(ops)));
         let mut r = ImplRun::default();
-        let mut router = Router::new();
+        let mut router = Backend::new(0);
         let mut s: Vec<Fe> = vec![]; // configured set (spec semantics)
         let mut hist: Vec<Fe> = vec![];
         let mut removed: Vec<Front> = vec![];
@@ -1224,11 +1643,18 @@ impl RouterArea {
         let mut blocks = 0;
 
         // evaluate one probe against the spec and the history oracle
-        let mut judge_probe = |router: &Router, s: &[Fe], hist: &[Fe], removed: &[Front], h: &str, p: &str, m: &str,
+        let mut judge_probe = |router: &Backend, s: &[Fe], hist: &[Fe], removed: &[Front], h: &str, p: &str, m: &str,
                                seen: &mut HashMap<(String, String), String>, fails: &mut BTreeSet<(String, String)>,
                                tree_routed: &mut bool|
          -> (String, String) {
             let x = impl_lookup(router, h, p, m);
+            if router.mode() != 0 && authority_host(h).is_none() {
+                // not a Host value `frontend_from_request` accepts: must be refused, nothing to route
+                if x != "err-host" {
+                    fails.insert(("authority-parse".into(), format!("authority {h:?} must be rejected, got `{x}`")));
+                }
+                return (x, String::new());
+            }
             let (w, none_ok) = spec_answers(s, h, p, m);
             let admissible: BTreeSet<&str> = w.iter().map(|fe| fe.res.as_str()).collect();
             if !w.is_empty() {
@@ -1266,30 +1692,28 @@ impl RouterArea {
 
         for (i, line) in ops.iter().enumerate() {
             match parse_op(line) {
-                Op::New => {
-                    router = Router::new();
+                Op::New(mode) => {
+                    router = Backend::new(mode);
                     s.clear();
                     hist.clear();
                     removed.clear();
                     blocks += 1;
+                    r.tags.push(format!("mode:{}", ["router", "http-proxy", "https-listener"][mode as usize]));
                     r.out.push("new".into());
                 }
-                Op::Add(f) | Op::Rem(f) if http_front(&f).is_none() => {
+                Op::Add(f) | Op::Rem(f) if router.mode() != 1 && f.pos > 2 => {
                     let _ = f;
                     r.out.push("bad-op".into());
                 }
                 Op::Add(f) => {
-                    let hf = http_front(&f).unwrap();
+                    // the plain-HTTP glue never passes an HSTS origin
+                    let mut fx = f.clone();
+                    if router.mode() == 1 {
+                        fx.inherit = false;
+                    }
                     let before: Vec<String> = g.iter().map(|(h, p, m)| impl_lookup(&router, h, p, m)).collect();
                     let s_before = s.clone();
-                    let res = router.add_http_front(&hf);
-                    let out = match &res {
-                        Ok(()) => "ok",
-                        Err(RouterError::InvalidPathRule(_)) => "err-path",
-                        Err(RouterError::InvalidDomain { .. }) => "err-domain",
-                        Err(RouterError::AddRoute(_)) => "err-add",
-                        Err(_) => "err-other",
-                    };
+                    let out = router.add(&f).unwrap_or("bad-op");
                     r.tags.push(format!("add:{out}"));
                     r.tags.push(format!("add-pos:{}", f.pos));
                     r.tags.push(format!("add-kind:{}", f.kind));
@@ -1300,12 +1724,30 @@ impl RouterArea {
                     } else {
                         r.tags.push("host:exact".into());
                     }
-                    r.tags.push(if expected_result(&f).contains("r=0 s=0 t=~ h=~ p=~ o=~ a=0") { "route:legacy".into() } else { "route:frontend-or-deny".into() });
-                    let fe = Fe { res: expected_result(&f), f: f.clone(), id: i };
-                    // spec bookkeeping
-                    let valid = valid_front(&f);
+                    let exp = Exp::from_front(&fx);
+                    r.tags.push(if exp.legacy { "route:legacy".into() } else { "route:frontend".into() });
+                    if !f.headers.is_empty() {
+                        r.tags.push("policy:headers".into());
+                    }
+                    if f.hsts.is_some() {
+                        r.tags.push("policy:hsts".into());
+                    }
+                    let fe = Fe { res: exp.show(), exp, f: fx.clone(), id: i };
+                    // spec bookkeeping: what the glue and the router are documented to answer
+                    let glue = if router.mode() == 1 && f.hsts.is_some() {
+                        Some("err-hsts")
+                    } else if router.mode() == 1 && f.pos > 2 {
+                        Some("err-input")
+                    } else if router.mode() == 1 && f.addr != 0 {
+                        Some("err-nolistener")
+                    } else {
+                        None
+                    };
+                    let valid = glue.is_none() && valid_front(&f);
                     let dup = s.iter().any(|g| same_key(&g.f, &f));
-                    let expect = if !valid {
+                    let expect = if let Some(e) = glue {
+                        e
+                    } else if !valid {
                         if f.kind > 2 || !path_ok(f.kind, &f.path) { "err-path" } else { "err-domain" }
                     } else if dup {
                         "err-add"
@@ -1320,7 +1762,9 @@ impl RouterArea {
                         removed.retain(|x| !same_key(x, &f));
                     }
                     if out != expect {
-                        let class = if expect == "err-add" && f.kind == 2 {
+                        let class = if glue.is_some() || ["err-hsts", "err-input", "err-nolistener"].contains(&out) {
+                            "listener-glue-outcome"
+                        } else if expect == "err-add" && f.kind == 2 {
                             "equals-rule-not-deduplicated"
                         } else if f.pos == 2 && hist.iter().any(|h| h.f.pos == 2 && has_re_seg(&h.f.host)) {
                             "regex-host-leaf-shared-with-literal-host"
@@ -1334,19 +1778,24 @@ impl RouterArea {
                     r.out.push(out.into());
                 }
                 Op::Rem(f) => {
-                    let hf = http_front(&f).unwrap();
                     let before: Vec<String> = g.iter().map(|(h, p, m)| impl_lookup(&router, h, p, m)).collect();
                     let s_before = s.clone();
-                    let res = router.remove_http_front(&hf);
-                    let out = match &res {
-                        Ok(()) => "ok",
-                        Err(RouterError::InvalidPathRule(_)) => "err-path",
-                        Err(RouterError::InvalidDomain { .. }) => "err-domain",
-                        Err(RouterError::RemoveRoute(_)) => "err-remove",
-                        Err(_) => "err-other",
-                    };
+                    let full = router.rem(&f).unwrap_or_else(|| "bad-op".to_string());
+                    let out = full.split(' ').next().unwrap_or("").to_string();
                     r.tags.push(format!("rem:{out}"));
-                    let present = s.iter().any(|g| same_key(&g.f, &f));
+                    let glue = if router.mode() == 1 && f.pos > 2 {
+                        Some("err-input")
+                    } else if router.mode() == 1 && f.addr != 0 {
+                        Some("err-nolistener")
+                    } else {
+                        None
+                    };
+                    if let Some(e) = glue {
+                        if out != e {
+                            fails.insert(("listener-glue-outcome".into(), format!("remove {:?}: got {out}, expected {e}", f.host)));
+                        }
+                    }
+                    let present = glue.is_none() && s.iter().any(|g| same_key(&g.f, &f));
                     if present {
                         s.retain(|g| !same_key(&g.f, &f));
                         removed.push(f.clone());
@@ -1356,19 +1805,57 @@ impl RouterArea {
                             fails.insert((class.into(), format!("remove of configured {:?} {} {:?} {:?}: got {out}", f.host, f.kind, f.path, f.method)));
                         }
                     }
-                    let valid = valid_front(&f);
+                    let valid = glue.is_none() && valid_front(&f);
                     irrelevant_change(&mut fails, "remove", &f, valid, &g, &before, &router, &s_before, &s, &hist, &removed);
-                    r.out.push(out.into());
+                    r.out.push(full);
                 }
                 Op::Probe(h, p, m) => {
-                    let (x, spec) = judge_probe(&router, &s, &hist, &removed, &h, &p, &m, &mut seen, &mut fails, &mut tree_routed);
-                    r.tags.push(if x == "none" { "probe:none".into() } else { "probe:routed".into() });
-                    r.out.push(format!("{x} | {spec}"));
+                    if router.mode() == 0 {
+                        let (x, spec) = judge_probe(&router, &s, &hist, &removed, &h, &p, &m, &mut seen, &mut fails, &mut tree_routed);
+                        r.tags.push(if x == "none" { "probe:none".into() } else { "probe:routed".into() });
+                        r.out.push(format!("{x} | {spec}"));
+                    } else {
+                        // the Host / :authority value goes through `frontend_from_request`
+                        let x = router.lookup(&h, &p, &m);
+                        match authority_host(&h) {
+                            None => {
+                                r.tags.push("probe:authority-rejected".into());
+                                if x != "err-host" {
+                                    fails.insert(("authority-parse".into(), format!("authority {h:?} must be rejected, got `{x}`")));
+                                }
+                                r.out.push(x);
+                            }
+                            Some(host) => {
+                                if host != h {
+                                    r.tags.push("probe:authority-with-port".into());
+                                }
+                                let (plain, spec) = judge_probe(&router, &s, &hist, &removed, &host, &p, &m, &mut seen, &mut fails, &mut tree_routed);
+                                if x != plain {
+                                    fails.insert(("authority-parse".into(), format!("authority {h:?} routes `{x}`, its hostname {host:?} routes `{plain}`")));
+                                }
+                                r.tags.push(if x == "none" { "probe:none".into() } else { "probe:routed".into() });
+                                r.out.push(format!("{x} | {spec}"));
+                            }
+                        }
+                    }
                 }
+                Op::Hsts(edit) => match router.hsts(edit) {
+                    None => r.out.push("bad-op".into()),
+                    Some(out) => {
+                        // a listener-default HSTS patch must not change any routing decision
+                        for fe in s.iter_mut().chain(hist.iter_mut()) {
+                            fe.exp.refresh(edit);
+                            fe.res = fe.exp.show();
+                        }
+                        seen.clear();
+                        r.tags.push("op:hsts-refresh".into());
+                        r.out.push(out.into());
+                    }
+                },
                 Op::Bad => r.out.push("bad-op".into()),
             }
             // the full grid after every state change feeds the oracles too
-            if matches!(parse_op(line), Op::Add(_) | Op::Rem(_)) {
+            if matches!(parse_op(line), Op::Add(_) | Op::Rem(_) | Op::Hsts(_)) {
                 for (h, p, m) in &g {
                     judge_probe(&router, &s, &hist, &removed, h, p, m, &mut seen, &mut fails, &mut tree_routed);
                 }
